@@ -70,13 +70,14 @@ Definition item_opaque (cap : nat) (a : acc) (bs : list Z) : Res (acc * list Z) 
 Definition item_certificate_entry (a : acc) (bs : list Z) : Res (acc * list Z) :=
   '(d, b1) <- pull_opaque 3 bs ;; '(e, b2) <- pull_opaque 2 b1 ;; Ok (acc_add a (out_bytes d ++ out_bytes e), b2).
 
-(* pull_server_name *)
+(* pull_server_name; a name that is not ASCII: UnicodeDecodeError is caught and re-raised as
+   AlertIllegalParameter("ServerName is not ASCII") (since /repo commit 759c7d3; before: E_UNICODE escaped) *)
 Definition pull_server_name (bs : list Z) : Res (list Z * list Z) :=
   pull_block 2 (fun _ b =>
     '(nt, b1) <- pull_uint8 b ;;
     if negb (nt =? 0) then Err E_ALERT_ILLEGAL else
     '(d, b2) <- pull_opaque 2 b1 ;;
-    if is_ascii d then Ok (d, b2) else Err E_UNICODE) bs.
+    if is_ascii d then Ok (d, b2) else Err E_ALERT_ILLEGAL) bs.
 
 Definition list_toks (cap : nat) (item : acc -> list Z -> Res (acc * list Z)) (bs : list Z)
   : Res (list Z * list Z) :=
@@ -186,13 +187,15 @@ Definition pull_new_session_ticket (bs : list Z) : Res (list Z * list Z) :=
     '(st, b5) <- pull_extensions parse_nst_ext false b4 ;;
     Ok ([lt; aa] ++ out_bytes nonce ++ out_bytes ticket ++ out_est NST_ORDER st, b5)) b0.
 
-(* EncryptedExtensions: `pull_list(...)[0]` raises IndexError on an empty / all-skipped ALPN list *)
+(* EncryptedExtensions: an empty / all-skipped ALPN list raises
+   AlertDecodeError("ALPN extension contains no usable protocol") (since /repo commit 759c7d3;
+   before: `pull_list(...)[0]` raised IndexError) *)
 Definition EE_ORDER : list Z := [16; 42].
 Definition parse_ee_ext (ty len : Z) (b : list Z) : option (Res (list Z * list Z)) :=
   if ty =? 16 then
     Some ('(a, r) <- pull_list 2 item_alpn acc0 b ;;
-          if fst a =? 0 then Err E_INDEX
-          else match snd a with n :: t => Ok (n :: ztake n t, r) | [] => Err E_INDEX end)
+          if fst a =? 0 then Err E_ALERT_DECODE
+          else match snd a with n :: t => Ok (n :: ztake n t, r) | [] => Err E_ALERT_DECODE end)
   else if ty =? 42 then Some (Ok ([], b))
   else None.
 
